@@ -628,7 +628,8 @@ class C2Profile(ConfigBlock):
                 for item in value:
                     if " " in item:
                         option, _, val = item.partition(" ")
-                        val = val[1:-1]
+                        # handed over as bytes so that value_to_string() escapes backslashes and quotes
+                        val = val[1:-1].encode()
                         if option == "CreateThread":
                             exec_options.set_option("createthread_special", val)
                         elif option == "CreateRemoteThread":
